@@ -599,4 +599,4 @@ CLAIM = ("Under an explicit model of unordered iteration (set iteration/pop orde
          "(table, linkage input, dendrogram labels) and duplicate groups are identical for every order within the bound, and the metrics are order-independent for all counts (z3).")
 LEVEL_NOTE = ("PARTIAL: the property quantifies over what separate interpreter processes do (hash randomisation, readdir order); that is "
               "modelled by permuting iteration order inside one process, not executed. Trusted: the order model (which names are shimmed), "
-              "CrossHair/z3. Outside: IEEE summation-order effects, the dendrogram, cross-process behaviour as such.")
+              "CrossHair/z3. Outside: IEEE summation-order effects beyond the three boundary tables of metrics-float/, the dendrogram, cross-process behaviour as such.")
